@@ -128,7 +128,7 @@ fn make_event(m: &sim::Model, inv: &crate::maps::Inv, rng: &mut Rng, kind: u64, 
             // "wins" changes an avalanche
             let score = |d: &[u8]| -> i64 { d[20..d.len() - 4].chunks_exact(2).map(|c| (i16::from_le_bytes([c[0], c[1]]) as i64 - 1725).abs()).filter(|x| *x > 30 && *x < 3000).sum() };
             let k = (0..banks.len()).filter(|k| banks[*k].0.starts_with("PC")).max_by_key(|k| score(&banks[*k].1)).unwrap();
-            let c = alpha_g_detector::padwing::Chunk::try_from(&banks[k].1[..]).unwrap();
+            let c = super::must_chunk(&banks[k].1);
             let mut payload = c.payload().to_vec();
             let start = if c.chunk_id() == 0 { 52 } else { 0 };
             let mut j = start + (start % 2);
@@ -171,7 +171,7 @@ fn make_event(m: &sim::Model, inv: &crate::maps::Inv, rng: &mut Rng, kind: u64, 
                 let idxs: Vec<usize> = (0..banks.len()).filter(|k| banks[*k].0 == nm && banks[*k].1[10] == chip).collect();
                 if idxs.len() >= 4 {
                     let k = idxs.iter().copied().find(|k| u16::from_le_bytes([banks[*k].1[12], banks[*k].1[13]]) == 2).unwrap();
-                    let c = alpha_g_detector::padwing::Chunk::try_from(&banks[k].1[..]).unwrap();
+                    let c = super::must_chunk(&banks[k].1);
                     let twin = crate::enc::Chunk { device_id: c.board_id().device_id(), packet_sequence: 3, channel_sequence: 3, channel_id: chip, flags: 0, chunk_id: 1, payload: c.payload().to_vec() };
                     banks[k].1 = twin.encode();
                     done = true;
